@@ -2,4 +2,4 @@
 Require Extraction.
 Require Import ExtrOcamlBasic.
 From TS Require Import Spec.CrcSpec Base.Res Model.Timestamp Model.Packet Model.PacketObs Model.Pes Model.PesObs Model.Crc Model.Descriptor Model.Tables Model.TablesObs Model.PesFilter Model.Psi Model.PsiObs Model.Demux Model.DemuxObs.
-Extraction "Extract/model.ml" run_packet run_packet_c12 run_af run_tsb run_tsu run_tsw run_crp run_crs run_pes run_ppc run_crc run_sec run_dsc run_pat run_pmt run_dmx run_pesf s_crc.
+Extraction "Extract/model.ml" run_packet run_packet_c12 run_af run_tsb run_tsu run_tsw run_crp run_crs run_pes run_ppc run_crc run_sec run_dsc run_pat run_pmt run_dmx run_pesf run_alloc run_mem s_crc.
